@@ -92,6 +92,11 @@ func nativeReplay(cex *CounterEx, ph PropHarness, file string) replayOutcome {
 			res = strings.TrimSpace(l[i+len("ZZVERIF-RESULT "):])
 		}
 	}
+	if res == "no-result" && (strings.Contains(o, "\npanic: ") || strings.HasPrefix(o, "panic: ") || strings.Contains(o, "fatal error: ")) {
+		// the test binary died: a panic in a goroutine nobody recovers (or a runtime fatal error) kills the process
+		// before the harness can print its verdict
+		res = "panic: process died"
+	}
 	ro := replayOutcome{Result: res, Output: tail(o, 3000)}
 	switch {
 	case cex.Assert == "engine:no_deadlock":
